@@ -20,7 +20,7 @@ func init() {
 		"per request: responses counted and matched (stamp: response type, seq, path, method, serialize type; result computed from its own arguments), handler invocations counted, " +
 		"connection state observed; every request is replayed on the Lean server model; non-trivial = request other than a plain successful call; distinct = distinct input line"
 	register("c04", "C04 focus (response count, stamping, dispatch styles, pooled argument objects): "+rule, func(o *Out, r *rand.Rand) { runSrv(o, r, "c04") })
-	register("c07", "C07 focus (failure kinds, error texts, server keeps serving): "+rule, func(o *Out, r *rand.Rand) { runSrv(o, r, "c07") })
+	register("c07", "C07 focus (failure kinds, error texts, server keeps serving; plus a real client.Client issuing sequential and pipelined failing calls whose errors are kept and judged after later traffic on the same connection): "+rule, func(o *Out, r *rand.Rand) { runSrv(o, r, "c07") })
 	register("c15", "C15 focus (rejections at every stage, flags, tokens; native ingress + gateway + JSON-RPC ingress): "+rule, func(o *Out, r *rand.Rand) { runSrv(o, r, "c15"); runC15Ingress(o, r) })
 }
 
@@ -225,8 +225,11 @@ func runSrv(o *Out, r *rand.Rand, focus string) {
 				srvCase(o, rig, same, cfg)
 			}
 		}
+		if focus == "c07" {
+			c07Client(o, rig, r, &id, cfg)
+		}
 		if focus == "c04" && !cfg.auth {
-			srvPooled(o, rig, r, &id)
+			srvPooled(o, rig, r, &id, "c04")
 		}
 		rig.close()
 	}
@@ -418,13 +421,14 @@ func srvLines(reqs []srvReq, auth bool) []string {
 }
 
 // pooled Reset-able argument and reply objects under concurrent requests (C04 / C20)
-func srvPooled(o *Out, rig *srvRig, r *rand.Rand, id *int) {
+func srvPooled(o *Out, rig *srvRig, r *rand.Rand, id *int, pfx string) {
 	conns := 4
 	per := 40
 	if thorough() {
 		conns, per = 8, 300
 	}
 	atomic.StoreInt32(&rig.pooledBad, 0)
+	atomic.StoreInt32(&rig.pooledReplyBad, 0)
 	type res struct {
 		bad string
 	}
@@ -446,6 +450,9 @@ func srvPooled(o *Out, rig *srvRig, r *rand.Rand, id *int) {
 				a, b := rid%97, rid%89
 				q := rawReq{id: rid, seq: uint64(rid), path: "Svc", method: "Pooled", ser: protocol.JSON,
 					args: &PArgs{ID: rid, A: a, B: b, Check: a*31 + b}, meta: map[string]string{"rid": fmt.Sprint(rid)}}
+				if i%11 == 5 {
+					q.args.(*PArgs).Mode = "err" // a failing handler: the reply is still encoded and returned to the pool
+				}
 				if i%7 == 3 {
 					q.oneway = true // one-way requests use (and must return) pooled objects too
 				} else {
@@ -485,9 +492,12 @@ func srvPooled(o *Out, rig *srvRig, r *rand.Rand, id *int) {
 	sort.Strings(bads)
 	o.Eval(fmt.Sprintf("pooled %dx%d", conns, per), true)
 	if len(bads) > 0 {
-		o.Violate("c04.pooled.cross-wired", "concurrent requests with pooled reply objects: "+bads[0], map[string]any{"connections": conns, "per_connection": per})
+		o.Violate(pfx+".pooled.cross-wired", "concurrent requests with pooled reply objects: "+bads[0], map[string]any{"connections": conns, "per_connection": per})
 	}
 	if n := atomic.LoadInt32(&rig.pooledBad); n > 0 {
-		o.Violate("c04.pooled.args-shared", fmt.Sprintf("a pooled argument object changed under a running handler %d times (shared between two requests in flight)", n), map[string]any{"connections": conns})
+		o.Violate(pfx+".pooled.args-shared", fmt.Sprintf("a pooled argument object changed under a running handler %d times (shared between two requests in flight)", n), map[string]any{"connections": conns})
+	}
+	if n := atomic.LoadInt32(&rig.pooledReplyBad); n > 0 {
+		o.Violate(pfx+".pooled.reply-shared", fmt.Sprintf("a pooled reply object changed under a running handler %d times (the same object handed to two requests in flight)", n), map[string]any{"connections": conns, "per_connection": per, "one_way_every": 7})
 	}
 }
